@@ -31,6 +31,7 @@ From NV Require Sam.LazyData Sam.LazyDataProofs Bam.File Bam.FileProofs Bam.Reus
   CramIdx.AsyncQuery Fasta.Layout Fasta.Reader Fasta.Indexer Fasta.Fastq Io.TabRead Io.Run.
 From NV Require Hostile.TotalCram Hostile.TotalFast Hostile.TotalVcf.
 From NV Require Vcf.Line Vcf.LazyRec Vcf.LazyRecProofs.
+From NV Require Bcf.Lazy Bcf.LazyProofs.
 Import ListNotations.
 Open Scope N_scope.
 
@@ -762,6 +763,15 @@ Proof.
   | exact (NV.Vcf.LazyRecProofs.lazy_records_never_panic valid prs h text)].
 Qed.
 Print Assumptions c15_vcf_lazy_never_panics.
+
+(* ---- (22) BCF: the LAZY record path (C10's NV.Bcf.Lazy: Fields::index, the lazy accessors and the
+   conversion to a RecordBuf), for every byte string, dictionary, header typing and file format:
+   a RecordBuf or an error, never the panic outcome (C10's theorem, restated; before this wave the
+   lazy bcf::Record iterators were search-only) *)
+Theorem c15_bcf_lazy_never_panics : forall v44 strings contigs ik fk bs,
+  NV.Bcf.Lazy.lazy_read v44 strings contigs ik fk bs <> NV.Bcf.Typed.RPanic.
+Proof. exact NV.Bcf.LazyProofs.lazy_read_never_panics. Qed.
+Print Assumptions c15_bcf_lazy_never_panics.
 
 (* non-vacuity of the sixth wave: the hypotheses are satisfiable and hostile inputs are errors *)
 Example c15_nonvacuous_vcf_lazy :
